@@ -2688,13 +2688,14 @@ class sptensor:
             # Find where their nonzeros intersect
             # TODO consider if intersect rows should return 3 args so we don't have to
             #  call it twice
-            nzsubsIdx = tt_intersect_rows(self.subs, other.subs)
-            nzsubs = self.subs[nzsubsIdx]
-            iother = tt_intersect_rows(other.subs, self.subs)
-            equal_subs = self.vals[nzsubsIdx] == other.vals[iother]
             znzsubs = np.empty(shape=(0, other.ndims), dtype=int)
-            if equal_subs.size > 0:
-                znzsubs = nzsubs[(equal_subs).transpose()[0], :]
+            if self.nnz > 0 and other.nnz > 0:
+                nzsubsIdx = tt_intersect_rows(self.subs, other.subs)
+                nzsubs = self.subs[nzsubsIdx]
+                # Look values up by subscript, stored orders may differ
+                equal_subs = self.vals[nzsubsIdx] == other.extract(nzsubs)
+                if equal_subs.size > 0:
+                    znzsubs = nzsubs[(equal_subs).transpose()[0], :]
 
             return sptensor(
                 np.vstack((zzerosubs, znzsubs)),
@@ -3004,16 +3005,21 @@ class sptensor:
             assert False, "Sptensor multiply requires two tensors of the same shape."
 
         if isinstance(other, ttb.sptensor):
+            if self.nnz == 0 or other.nnz == 0:
+                return ttb.sptensor(shape=self.shape)
             idxSelf = tt_intersect_rows(self.subs, other.subs)
-            idxOther = tt_intersect_rows(other.subs, self.subs)
+            # Look values up by subscript, stored orders may differ
             return ttb.sptensor(
                 self.subs[idxSelf],
-                self.vals[idxSelf] * other.vals[idxOther],
+                self.vals[idxSelf] * other.extract(self.subs[idxSelf]),
                 self.shape,
             )
         if isinstance(other, ttb.tensor):
+            if self.nnz == 0:
+                return self.copy()
             csubs = self.subs
-            cvals = self.vals * other[csubs][:, None]
+            # A single subscript is returned as a scalar
+            cvals = self.vals * np.atleast_1d(other[csubs])[:, None]
             return ttb.sptensor(csubs, cvals, self.shape)
         if isinstance(other, ttb.ktensor):
             csubs = self.subs
